@@ -46,3 +46,42 @@ Theorem stream_reader_close_contract : forall wrap v closed_err r,
   end.
 Proof. exact close_contract. Qed.
 Print Assumptions stream_reader_close_contract.
+
+From V Require Import Flate.Impl Flate.ImplLife Flate.ImplLifeWin Flate.ImplLifeSim Flate.ImplLifeThms.
+(* flate.Reader at implementation level (Flate/ImplLife.v, per-call correspondence WFLLIFE).
+   Close, from ANY state, touches neither the source nor the offsets nor the window and drops the
+   pending output *)
+Theorem flate_reader_close_frame : forall st,
+  let st1 := snd (fl_close st) in
+  f_rd st1 = f_rd st /\ f_inOff st1 = f_inOff st /\ f_outOff st1 = f_outOff st /\
+  f_dict st1 = f_dict st /\ f_toRead st1 = [] /\
+  (f_err st = None -> fl_close st = (None, set_toRead st [])).
+Proof. exact fl_close_frame. Qed.
+Print Assumptions flate_reader_close_frame.
+
+(* closed means closed: after Close on a Reader whose error is latched (io.EOF, a decoding or
+   source error, or already closed; output still pending or not) every later Read returns no byte
+   and the closed error (resp. that error), every later Close nil (resp. that error), in any
+   order and number, and the state never changes again *)
+Theorem flate_reader_closed_is_inert : forall st e,
+  f_err st = Some e ->
+  let st1 := snd (fl_close st) in
+  let e' := closed_class e in
+  fst (fl_close st) = close_ret e /\
+  st1 = set_err (set_toRead st []) (Some e') /\
+  (f_rd st1 = f_rd st /\ f_inOff st1 = f_inOff st /\ f_outOff st1 = f_outOff st) /\
+  forall ops, Forall no_reset ops ->
+    fl_ops st1 ops =
+    (map (fun o => match o with
+                   | FRead _ => lobs_of LkRead [] (Some e') st1
+                   | _ => lobs_of LkClose [] (close_ret e') st1
+                   end) ops, st1).
+Proof. exact fl_closed_inert. Qed.
+Print Assumptions flate_reader_closed_is_inert.
+
+(* what the code does NOT do (outside the property, which speaks of Close after io.EOF): a Close in
+   the middle of a healthy stream closes nothing - it drops the pending output, returns nil, and
+   the next Read goes on decoding (witness: 434 of 560 bytes lost) *)
+Theorem flate_reader_close_midstream_closes_nothing : ~ fl_closed_inert_any_state_statement.
+Proof. exact fl_closed_inert_any_state_refuted. Qed.
+Print Assumptions flate_reader_close_midstream_closes_nothing.
